@@ -64,19 +64,20 @@ use std::fmt::{Debug, Display};
 use std::str::FromStr;
 use std::sync::Arc;
 
-const COMPATIBILITY_MATRIX: [u8; 121] = [
-    // PAIR, PUB, SUB, REQ, REP, DEALER, ROUTER, PULL, PUSH, XPUB, XSUB
-    1, 0, 0, 0, 0, 0, 0, 0, 0, 0, 0, // PAIR
-    0, 0, 1, 0, 0, 0, 0, 0, 0, 0, 1, // PUB
-    0, 1, 0, 0, 0, 0, 0, 0, 0, 1, 0, // SUB
-    0, 0, 0, 0, 1, 0, 1, 0, 0, 0, 0, // REQ
-    0, 0, 0, 1, 0, 1, 0, 0, 0, 0, 0, // REP
-    0, 0, 0, 0, 1, 1, 1, 0, 0, 0, 0, // DEALER
-    0, 0, 0, 1, 0, 1, 1, 0, 0, 0, 0, // ROUTER
-    0, 0, 0, 0, 0, 0, 0, 0, 1, 0, 0, // PULL
-    0, 0, 0, 0, 0, 0, 0, 1, 0, 0, 0, // PUSH
-    0, 0, 1, 0, 0, 0, 0, 0, 0, 0, 1, // XPUB
-    0, 1, 0, 0, 0, 0, 0, 0, 0, 1, 0, // XSUB
+const COMPATIBILITY_MATRIX: [u8; 144] = [
+    // PAIR, PUB, SUB, REQ, REP, DEALER, ROUTER, PULL, PUSH, XPUB, XSUB, STREAM
+    1, 0, 0, 0, 0, 0, 0, 0, 0, 0, 0, 0, // PAIR
+    0, 0, 1, 0, 0, 0, 0, 0, 0, 0, 1, 0, // PUB
+    0, 1, 0, 0, 0, 0, 0, 0, 0, 1, 0, 0, // SUB
+    0, 0, 0, 0, 1, 0, 1, 0, 0, 0, 0, 0, // REQ
+    0, 0, 0, 1, 0, 1, 0, 0, 0, 0, 0, 0, // REP
+    0, 0, 0, 0, 1, 1, 1, 0, 0, 0, 0, 0, // DEALER
+    0, 0, 0, 1, 0, 1, 1, 0, 0, 0, 0, 0, // ROUTER
+    0, 0, 0, 0, 0, 0, 0, 0, 1, 0, 0, 0, // PULL
+    0, 0, 0, 0, 0, 0, 0, 1, 0, 0, 0, 0, // PUSH
+    0, 0, 1, 0, 0, 0, 0, 0, 0, 0, 1, 0, // XPUB
+    0, 1, 0, 0, 0, 0, 0, 0, 0, 1, 0, 0, // XSUB
+    0, 0, 0, 0, 0, 0, 0, 0, 0, 0, 0, 0, // STREAM (talks to non-ZMTP peers only)
 ];
 
 #[allow(clippy::upper_case_acronyms)]
@@ -126,7 +127,7 @@ impl SocketType {
     pub fn compatible(&self, other: SocketType) -> bool {
         let row_index = *self as usize;
         let col_index = other as usize;
-        COMPATIBILITY_MATRIX[row_index * 11 + col_index] != 0
+        COMPATIBILITY_MATRIX[row_index * 12 + col_index] != 0
     }
 }
 
